@@ -403,3 +403,31 @@ Proof.
   - eapply Qle_trans; [|exact Lg]. apply (of_greedy _ _ _ _ _ _ OF). exact Eg.
   - eapply Qle_trans; [|exact Lg]. apply (of_flag _ _ _ _ _ _ OF); [congruence|exact R|exact Gg].
 Qed.
+
+(* ---- the finite-domain theorems for <= 3 gates (the part of the enumeration that is in the cone of Properties/C08.v;
+        the 4-gate part is in Proofs/BestFirstSpec4*.v) ---- *)
+Lemma c08_domain3_gammas : list_gammas_check c08_domain3 = true.
+Proof. vm_compute. reflexivity. Qed.
+
+Lemma c08_domain3_gammas_ok lab c used : In (c, used) c08_domain3 -> gammas_ok (gates_from lab 0 c).
+Proof. intros I. exact (list_gammas_ok lab _ c used c08_domain3_gammas I). Qed.
+
+Lemma pruning_sound_bounded3 lab c used : In (c, used) c08_domain3 ->
+  forall nq W gl wl mg, used <= nq <= 4 -> 1 <= W <= 4 -> In (gl, wl) lo_combos ->
+  pruning_sound_for (gates_from lab 0 c) gl wl W mg nq.
+Proof.
+  intros I. exact (list_check_sound lab 4 _ (c08_domain3_checked lab) c used I (c08_domain3_gammas_ok lab c used I)).
+Qed.
+
+Lemma flag_sound_bounded3 fuel i r lab c used : In (c, used) c08_domain3 ->
+  fa_gates (fa_of i) = gates_from lab 0 c -> used <= nq_of i <= 4 -> 1 <= fi_W i <= 4 ->
+  In (fi_gate_lo i, fi_wire_lo i) lo_combos ->
+  find_cuts_full fuel i = Val r -> md_minimum_reached (fr_meta r) = true ->
+  forall A k, assignment_cost (nq_of i) (fi_W i) (fi_gate_lo i) (fi_wire_lo i) (sgates_of (fa_gates (fa_of i))) A = Some k ->
+  (md_overhead (fr_meta r) <= k * k)%Q.
+Proof.
+  intros I Eg Hn HW Ilo H F. apply (flag_sound_spec fuel i r); auto.
+  - unfold gammas_ok_in. rewrite Eg. eapply c08_domain3_gammas_ok; eauto.
+  - rewrite Eg. eapply pruning_sound_bounded3; eauto.
+Qed.
+
